@@ -34,7 +34,8 @@ EXPLANATION = (
     "handshake completion is followed on every path by a drain of already-decrypted data and "
     "every recv() result reaches the inner protocol. TLS record reassembly and byte equality "
     "of responses across segmentations are not decided. "
-    "(S3, search-start) a separator search start kept on self is 0 or len(buffer)-k with k >= len(separator)-1 at every assignment. (S4, drain) after a non-empty recv() every normal path of the pump calls recv() again before returning."
+    "(S3, search-start) a separator search start kept on self is 0 or len(buffer)-k with k >= len(separator)-1 at every assignment. (S4, drain) after a non-empty recv() every normal path of the pump calls recv() again before returning. "
+    "(S4, parked) every recv() result is bound and handed to the inner protocol before the next engine call."
 )
 
 
